@@ -8,7 +8,7 @@ Fields == {"p_type", "p_flags", "p_offset", "p_vaddr", "p_filesz", "p_memsz", "p
            "e_shentsize", "e_shstrndx", "e_entry", "e_type", "e_machine", "ei_class", "ei_data", "sh_link", "sh_offset", "sh_size", "sh_entsize", "st_name"}
 \* symbolic values; the binding resolves them against the concrete file (size = file size, page = 4096)
 Values == {"0", "1", "size-1", "size", "size+1", "2^31", "2^32-1", "2^32", "2^63", "2^64-1", "page-1", "2^40", "2^47", "7", "0x6474e551", "0xffff"}
-Which == {1, 2}                       \* which program / section header entry
+Which == {1, 2, 3, 4}                 \* which program / section header entry
 Mut == [f : Fields, v : Values, k : Which]
 VARIABLE m
 Init == \/ \E a \in Mut : m = <<a>>
